@@ -12,7 +12,9 @@
    execution reports for every renderer of numbers that stays in the finite FIX float layout, instantiated with
    the exact binary-fraction printer print_q.  The harness keeps deciding the same claim on the real
    FIXSchema.validate.  NOT proved (differential only): session fidelity of the simulated acceptor.
-   Refuted parts are the *_refuted theorems; each is a known-finding class of harness/c20.py. *)
+   The model describes fix_tester.py with fixes/R12a-R12e applied.  The one remaining *_refuted theorem
+   (foreign ClOrdID, pinned by tests/test_protocol_order_single.py::test_exec_report_clord_mismatch) is a
+   known-finding class of harness/c20.py. *)
 From Coq Require Import ZArith NArith List Bool Sorting.Sorted.
 From AF Require Import Base.Sx Py.Str Fix.OrderStatus Fix.Tester Fix.TesterSchema Lemmas.TesterL Lemmas.TesterSchemaL.
 From AF Require Fix.Lex.
@@ -21,22 +23,24 @@ Open Scope Z_scope.
 
 (* ---------------------------------------------------------------- which calls are accepted *)
 
-(* the helper returns a message exactly under the conditions of its assertion chain; the message and
-   the counters afterwards are then determined *)
+(* the helper returns a message exactly under the conditions of its assertion chain (incl. ord_status != CREATED,
+   fixes/R12a); the message and the counters afterwards are then determined *)
 Theorem C20_accepts_iff : forall u t o a m t',
   fix_exec_report_msg u t o a = Ok m t' <->
   exists clord oq cum leaves price last,
-    registered t (o_clord o) = true /\ a_clord a = Some clord /\ clord <> [] /\
+    registered t (o_clord o) = true /\ a_clord a = Some clord /\ clord <> [] /\ a_status a <> CREATED /\
     resolve_qtys o a = Some (oq, cum, leaves) /\ trade_fields u o a cum = Some last /\
     resolve_price o a = Some price /\ pending_cancel_ok o a cum leaves = true /\ finished_ok a leaves = true /\
     t' = after_ids t o /\ m = report t o a clord oq cum leaves price last.
 Proof. exact exec_accepts_iff. Qed.
 Print Assumptions C20_accepts_iff.
 
-(* a refused call leaves the registered keys alone and moves each counter by at most one, never back *)
+(* a refused call leaves the registered keys alone, moves each counter by at most one, never back, and never
+   changes an OrderID already drawn for a root ClOrdID *)
 Theorem C20_refused_counters : forall u t o a t',
   fix_exec_report_msg u t o a = AssertionFailed t' ->
-  t_eid t <= t_eid t' <= t_eid t + 1 /\ t_oid t <= t_oid t' <= t_oid t + 1 /\ t_reg t' = t_reg t.
+  t_eid t <= t_eid t' <= t_eid t + 1 /\ t_oid t <= t_oid t' <= t_oid t + 1 /\ t_reg t' = t_reg t /\
+  (forall k v, lookup k (t_oids t) = Some v -> lookup k (t_oids t') = Some v).
 Proof. exact exec_fail_ids. Qed.
 Print Assumptions C20_refused_counters.
 
@@ -109,14 +113,20 @@ Print Assumptions C20_trade_check.
 
 (* ---------------------------------------------------------------- ids *)
 
-(* ExecID = str(counter + 1), counter advanced; OrderID = the order's own when it has one, else str of
-   the advanced order counter *)
+(* ExecID = str(counter + 1), counter advanced; OrderID = the order's own when it has one, else the id drawn for
+   the order's root ClOrdID: the one in the map when there is one, else str of the advanced order counter, which
+   is then remembered (fixes/R12b) *)
 Theorem C20_ids : forall u t o a m t',
   fix_exec_report_msg u t o a = Ok m t' ->
   get_s T_ExecID m = Some (z_to_dec (t_eid t + 1)) /\ t_eid t' = t_eid t + 1 /\ t_reg t' = t_reg t /\
   match o_oid o with
-  | Some s => get_s T_OrderID m = Some s /\ t_oid t' = t_oid t
-  | None => get_s T_OrderID m = Some (z_to_dec (t_oid t + 1)) /\ t_oid t' = t_oid t + 1
+  | Some s => get_s T_OrderID m = Some s /\ t_oid t' = t_oid t /\ t_oids t' = t_oids t
+  | None =>
+      match lookup (root_of o) (t_oids t) with
+      | Some v => get_s T_OrderID m = Some (z_to_dec v) /\ t_oid t' = t_oid t /\ t_oids t' = t_oids t
+      | None => get_s T_OrderID m = Some (z_to_dec (t_oid t + 1)) /\ t_oid t' = t_oid t + 1 /\
+                t_oids t' = t_oids t ++ [(root_of o, t_oid t + 1)]
+      end
   end.
 Proof. exact exec_ids. Qed.
 Print Assumptions C20_ids.
@@ -142,26 +152,53 @@ Theorem C20_str_int_injective : forall a b, z_to_dec a = z_to_dec b -> a = b.
 Proof. exact z_to_dec_inj. Qed.
 Print Assumptions C20_str_int_injective.
 
-(* OrderID is stable per order when every fabricated report is processed by the order object before the
-   next one is fabricated (closed loop) and carries the order's ClOrdID ... *)
-Theorem C20_order_id_stable_partial : forall u calls t o,
+(* OrderID is stable per order, FULL strength since fixes/R12b: two fabrications for the same order (same root
+   ClOrdID) with ANY history of helper calls in between carry the same OrderID, whether the order object has
+   processed the first report (its order_id is then that OrderID) or not (order_id still None) ... *)
+Theorem C20_order_id_stable : forall u t o1 a1 m1 t1 ops t2 ms o2 a2 m2 t3,
+  fix_exec_report_msg u t o1 a1 = Ok m1 t1 -> run_ops u t1 ops = (t2, ms) ->
+  fix_exec_report_msg u t2 o2 a2 = Ok m2 t3 ->
+  o_oid o1 = None -> root_of o2 = root_of o1 -> (o_oid o2 = None \/ o_oid o2 = order_id_of m1) ->
+  order_id_of m2 = order_id_of m1.
+Proof. exact order_id_stable. Qed.
+Print Assumptions C20_order_id_stable.
+
+(* ... orders with different root ClOrdIDs never share a drawn OrderID (from any state whose map holds ids drawn
+   from the counter, e.g. the initial one) ... *)
+Theorem C20_order_id_distinct : forall u t o1 a1 m1 t1 ops t2 ms o2 a2 m2 t3,
+  wf_t t ->
+  fix_exec_report_msg u t o1 a1 = Ok m1 t1 -> run_ops u t1 ops = (t2, ms) ->
+  fix_exec_report_msg u t2 o2 a2 = Ok m2 t3 ->
+  o_oid o1 = None -> o_oid o2 = None -> root_of o2 <> root_of o1 ->
+  order_id_of m2 <> order_id_of m1.
+Proof. exact order_id_distinct. Qed.
+Print Assumptions C20_order_id_distinct.
+
+Theorem C20_order_id_map_wf : wf_t t_init /\ (forall u ops t t' ms, run_ops u t ops = (t', ms) -> wf_t t -> wf_t t').
+Proof. exact order_id_map_wf. Qed.
+Print Assumptions C20_order_id_map_wf.
+
+(* ... and in the closed loop (each report processed before the next is fabricated, ClOrdID = the order's) the whole
+   run carries one OrderID *)
+Theorem C20_order_id_closed_loop : forall u calls t o,
   Forall (fun a => a_clord a = Some (o_clord o)) calls ->
   match drive u t o calls with
   | [] => True
   | m0 :: ms => order_id_of m0 <> None /\ Forall (fun m => order_id_of m = order_id_of m0) ms
   end.
 Proof. exact drive_oid_stable. Qed.
-Print Assumptions C20_order_id_stable_partial.
+Print Assumptions C20_order_id_closed_loop.
 
-(* ... but not otherwise: two reports fabricated for the same order before it processed the first one
-   carry different OrderIDs (the helper keeps no per-order memory)   [finding C20-orderid-open-loop] *)
-Theorem C20_order_id_open_loop_refuted :
+(* the former finding C20-orderid-open-loop (OrderIDs 1 then 2) is gone: both reports carry OrderID 1, remembered
+   under the root ClOrdID "ord" *)
+Example C20_order_id_open_loop_fixed :
   exists t1 m1 t2 m2,
     fix_exec_report_msg 4096 w_state w_order (w_args (o_clord w_order) PENDING_NEW PENDING_NEW None None) = Ok m1 t1 /\
     fix_exec_report_msg 4096 t1 w_order (w_args (o_clord w_order) NEW NEW (Some 0) (Some (8 * 4096))) = Ok m2 t2 /\
-    order_id_of m1 = Some [49%N] /\ order_id_of m2 = Some [50%N].
+    order_id_of m1 = Some [49%N] /\ order_id_of m2 = Some [49%N] /\
+    t_oids t2 = [(root_of w_order, 1)] /\ root_of w_order = [111;114;100]%N.
 Proof. exact open_loop_witness. Qed.
-Print Assumptions C20_order_id_open_loop_refuted.
+Print Assumptions C20_order_id_open_loop_fixed.
 
 (* ---------------------------------------------------------------- tags and values *)
 
@@ -221,21 +258,27 @@ Theorem C20_processed_foreign_clordid_refuted :
 Proof. exact foreign_clordid_witness. Qed.
 Print Assumptions C20_processed_foreign_clordid_refuted.
 
-(* the internal status CREATED = "Z" (an FOrdStatus member, not a FIX 4.4 OrdStatus value) is accepted and
-   written into tag 39; the real dictionary validation refuses it (harness)   [finding C20-status-created] *)
-Theorem C20_status_created_refuted :
-  exists m t', fix_exec_report_msg 4096 w_state w_order (w_args (o_clord w_order) NEW CREATED None None) = Ok m t' /\
-               get_s T_OrdStatus m = Some [90%N] /\ In CREATED all_statuses.
+(* the internal status CREATED = "Z" (an FOrdStatus member, not a FIX 4.4 OrdStatus value) is never put on the wire
+   (fixes/R12a; former finding C20-status-created) *)
+Theorem C20_status_never_created : forall u t o a m t',
+  fix_exec_report_msg u t o a = Ok m t' -> a_status a <> CREATED /\ get_s T_OrdStatus m = Some [a_status a].
+Proof. exact status_never_created. Qed.
+Print Assumptions C20_status_never_created.
+
+Example C20_status_created_refused :
+  fix_exec_report_msg 4096 w_state w_order (w_args (o_clord w_order) NEW CREATED None None) = AssertionFailed w_state /\
+  fix_cxlrep_reject_msg [K_ORDERCANCELREQUEST] (Some [97%N]) (Some [98%N]) CREATED = RAssertion /\
+  In CREATED all_statuses.
 Proof. exact created_status_witness. Qed.
-Print Assumptions C20_status_created_refuted.
+Print Assumptions C20_status_created_refused.
 
 (* ---------------------------------------------------------------- cancel reject *)
 
-(* 37 / 11 / 41 / 39 / 434 in this order, 434 = "1" for a cancel request, "2" for a replace request *)
+(* 37 / 11 / 41 / 39 / 434 in this order, 434 = "1" for a cancel request, "2" for a replace request; never status Z *)
 Theorem C20_cancel_reject : forall mt clord orig st m,
   fix_cxlrep_reject_msg mt clord orig st = ROk m ->
   exists c og r,
-    clord = Some c /\ orig = Some og /\
+    clord = Some c /\ orig = Some og /\ st <> CREATED /\
     m = [(T_OrderID, VS [48%N]); (T_ClOrdID, VS c); (T_OrigClOrdID, VS og); (T_OrdStatus, VS [st]);
          (T_CxlRejResponseTo, VS [r])] /\
     ((mt = [K_ORDERCANCELREQUEST] /\ r = 49%N) \/ (mt = [K_ORDERCANCELREPLACEREQUEST] /\ r = 50%N)).
@@ -244,7 +287,8 @@ Print Assumptions C20_cancel_reject.
 
 Theorem C20_cancel_reject_refuses : forall mt clord orig st,
   fix_cxlrep_reject_msg mt clord orig st = RAssertion <->
-  (exists c og, clord = Some c /\ orig = Some og) /\ mt <> [K_ORDERCANCELREQUEST] /\ mt <> [K_ORDERCANCELREPLACEREQUEST].
+  (exists c og, clord = Some c /\ orig = Some og) /\
+  (st = CREATED \/ (mt <> [K_ORDERCANCELREQUEST] /\ mt <> [K_ORDERCANCELREPLACEREQUEST])).
 Proof. exact reject_refuses. Qed.
 Print Assumptions C20_cancel_reject_refuses.
 
@@ -264,7 +308,7 @@ Print Assumptions C20_nonvacuous_fill.
 Example C20_nonvacuous_tolerance :
   fix_exec_report_msg 4096 w_state w_live
     (mkArgs (Some (o_clord w_live)) X_TRADE PARTIALLY_FILLED (Some (2 * 4096)) (Some (6 * 4096)) (Some (2 * 4096 + 3))
-            None None None 0) = AssertionFailed (mkT 0 10001 (t_reg w_state)).
+            None None None 0) = AssertionFailed (mkT 0 10001 (t_reg w_state) []).
 Proof. exact fill_tolerance_witness. Qed.
 Print Assumptions C20_nonvacuous_tolerance.
 
@@ -305,17 +349,17 @@ Theorem C20_session_factories_validate :
 Proof. exact session_factories_validate. Qed.
 Print Assumptions C20_session_factories_validate.
 
-(* cancel reject: every valid String ClOrdID / OrigClOrdID (non-empty, no SOH, no '='), every OrdStatus of the
-   dictionary (= FOrdStatus member other than CREATED), both request kinds *)
+(* cancel reject: every valid String ClOrdID / OrigClOrdID (non-empty, no SOH, no '='), every FOrdStatus member
+   (CREATED is refused by the helper itself since fixes/R12a), both request kinds *)
 Theorem C20_cancel_reject_validates : forall mt c og st m,
   fix_cxlrep_reject_msg mt (Some c) (Some og) st = ROk m ->
-  valid_string c = true -> valid_string og = true -> fix_status st = true ->
+  valid_string c = true -> valid_string og = true -> In st all_statuses ->
   validate44 (render no_numbers [57%N] m) = SM.Ok.
 Proof. exact cancel_reject_validates. Qed.
 Print Assumptions C20_cancel_reject_validates.
 
 (* execution report: every accepted call whose texts are valid Strings, whose ExecType / OrdStatus / Side are
-   dictionary values (exec_valid) and whose numbers are rendered inside the finite FIX float layout validates -
+   enum members (exec_valid; OrdStatus CREATED cannot occur) and whose numbers are rendered inside the finite FIX float layout validates -
    for ANY renderer pr (partial: the rendering of numbers is the hypothesis) ... *)
 Theorem C20_exec_report_validates_partial : forall pr u t o a m t',
   fix_exec_report_msg u t o a = Ok m t' -> exec_valid o a -> numbers_ok pr m ->
@@ -344,16 +388,11 @@ Example C20_exec_report_validates_nonvacuous :
 Proof. exact exec_report_validates_witness. Qed.
 Print Assumptions C20_exec_report_validates_nonvacuous.
 
-(* a rendering outside the layout (str(float) below 1e-4: "1e-05") is refused   [finding C20-float-notation] *)
-Theorem C20_float_notation_refuted :
+(* the hypothesis numbers_ok is needed: a rendering outside the layout ("1e-05", what str(float) printed below 1e-4
+   before fixes/R12c + R12d made the helper print plain notation) is refused by the dictionary *)
+Example C20_exponent_text_outside_layout :
   exists m t', fix_exec_report_msg 4096 w_state w_live w_fill = Ok m t' /\
     validate44 (render exponent_text [56%N] m) = SM.Exc SM.EFIXMessage.
 Proof. exact exponent_text_refused. Qed.
-Print Assumptions C20_float_notation_refuted.
+Print Assumptions C20_exponent_text_outside_layout.
 
-(* OrdStatus "Z" is refused by the dictionary   [finding C20-status-created, see C20_status_created_refuted] *)
-Theorem C20_status_created_invalid_refuted :
-  exists m t', fix_exec_report_msg 4096 w_state w_order (w_args (o_clord w_order) NEW CREATED None None) = Ok m t' /\
-    validate44 (render (print_q 12) [56%N] m) = SM.Exc SM.EFIXMessage.
-Proof. exact created_status_refused. Qed.
-Print Assumptions C20_status_created_invalid_refuted.
